@@ -140,7 +140,7 @@ impl ProbeCrate {
             text.push_str("\n// ---- appended by the probe builder ----\n");
             text.push_str(&mf.extra);
             if self.with_runtime {
-                text.push_str("\n#[allow(unused, clippy::all)]\npub fn __probe_steps(__start: u64) {\n");
+                text.push_str("\n#[allow(unused, clippy::all)]\npub fn __probe_steps(__start: ::core::primitive::u64) {\n");
                 for (n, native_only, body) in &mf.steps {
                     text.push_str(&format!(
                         "    crate::rt::step({n}, __start, {native_only}, || {{\n{body}\n    }});\n"
@@ -155,7 +155,7 @@ impl ProbeCrate {
                 all.entry(p.to_string()).or_insert_with(|| {
                     let mut t = String::from("#![allow(warnings)]\n");
                     if self.with_runtime {
-                        t.push_str("pub fn __probe_steps(__start: u64) {}\n");
+                        t.push_str("pub fn __probe_steps(__start: ::core::primitive::u64) {}\n");
                     }
                     t
                 });
